@@ -88,6 +88,36 @@ func genRound(c *fw.Ctx, g *lab.PathGen, version int64, cur map[string][]byte, g
 	return rd, committed
 }
 
+// flicker makes rounds of their own in which one path of the state is deleted, or put back with the value it had, while
+// everything else stays untouched: the nodes around that path are restructured back and forth across rounds.
+type flicker struct {
+	key string
+	val []byte
+}
+
+func (f *flicker) round(c *fw.Ctx, version int64, cur map[string][]byte) (rRound, map[string][]byte, bool) {
+	if f.key == "" {
+		live := lab.SortedKeys(cur)
+		if len(live) < 2 {
+			return rRound{}, nil, false
+		}
+		f.key = live[c.Rng.Intn(len(live))]
+		f.val = append([]byte(nil), cur[f.key]...)
+	}
+	next := lab.CopyContent(cur)
+	var tx rTxn
+	if _, ok := next[f.key]; ok {
+		tx.ops = append(tx.ops, c02op{del: true, path: f.key})
+		delete(next, f.key)
+	} else {
+		tx.ops = append(tx.ops, c02op{path: f.key, val: f.val})
+		next[f.key] = f.val
+	}
+	tx.merge = true
+	c.Count("rounds_that_only_remove_or_put_back_one_path", 1)
+	return rRound{version: version, txns: []rTxn{tx}}, next, true
+}
+
 // genFatRound: one merged transaction inserting n values on random 8-character paths over the full hex alphabet,
 // so that a single save carries several hundred changed nodes (more than one store batch if the save is chunked).
 func genFatRound(c *fw.Ctx, version int64, cur map[string][]byte, n int) (rRound, map[string][]byte) {
@@ -391,12 +421,18 @@ func runC04(c *fw.Ctx) {
 		return o
 	}
 	crashPoints := 0
+	flick, fl := (c.Idx/16+c.Idx)%4 == 1, &flicker{}
 	fatAt := int64(-1)
 	if r.Intn(32) == 0 { // chosen by the case PRNG so that fat histories spread over all worker shards
 		fatAt = 1 + int64(r.Intn(nrounds))
 	}
 	for v := int64(1); v <= int64(nrounds); v++ {
 		rd, next := genRound(c, g, v, cur, grave)
+		if flick && v >= 2 && v != fatAt && r.Intn(2) == 0 {
+			if frd, fnext, ok := fl.round(c, v, cur); ok {
+				rd, next = frd, fnext
+			}
+		}
 		if v == fatAt {
 			rd, next = genFatRound(c, v, cur, []int{300, 450, 700, 1100}[r.Intn(4)]+r.Intn(7))
 		}
@@ -598,6 +634,7 @@ func runC05(c *fw.Ctx) {
 	var saved []rSaved
 	pruned := int64(0)
 	nrounds := 4 + r.Intn(9)
+	flick, fl := (c.Idx/16+c.Idx)%4 == 1, &flicker{}
 	big := !c.Quick() && c.Idx%40 == 0 // long histories with >1000 accumulated dead nodes: several delete batches
 	if big {
 		nrounds = 60
@@ -647,6 +684,11 @@ func runC05(c *fw.Ctx) {
 				rd.txns[i].merge = true
 			}
 			next = replayModel(cur, rd)
+		}
+		if flick && !big && v >= 2 && r.Intn(2) == 0 {
+			if frd, fnext, ok := fl.round(c, v, cur); ok {
+				rd, next = frd, fnext
+			}
 		}
 		c.Tracef("%s", rd.String())
 		newRoot, dead, err := execRound(pndb, root, rd)
